@@ -208,15 +208,31 @@ theorem starts_agree (x t : List Char) (hx : OnlyBlanks x) (ht : IsTerm t) :
   unfold Spec.isBlankLine Spec.startsInput
   exact not_all_blank_eq_any
 
-/-- **L5**: a `#` in columns 1-5 -/
-theorem hash_agree (x t : List Char) (ht : IsTerm t) :
-    ((x ++ t).take Gen.blankSpaceContinue).contains '#' = (x.take Gen.blankSpaceContinue).contains '#' := by
-  rcases ht with rfl | rfl
-  · simp
-  · rw [List.take_append]
-    cases h : (Gen.blankSpaceContinue - x.length) with
-    | zero => simp
-    | succ k => simp [List.take]
+/-- the first non-blank of columns 1-5 is a `#`: what the code takes for the vertical input format (fix 453a5e4) -/
+def hashFirst (x : List Char) : Bool :=
+  Reader.startsWith ((x.take Gen.blankSpaceContinue).dropWhile (fun c => decide (c = ' '))) ['#']
+
+theorem startsWith_hash_append (a b : List Char) (h : a ≠ []) :
+    Reader.startsWith (a ++ b) ['#'] = Reader.startsWith a ['#'] := by
+  cases a with
+  | nil => exact absurd rfl h
+  | cons c r => simp [Reader.startsWith]
+
+/-- **L5**: a `#` that starts the line within columns 1-5 -/
+theorem hash_agree (x t : List Char) (hx : OnlyBlanks x) (ht : IsTerm t) :
+    Reader.startsWith (lstrip ((x ++ t).take Gen.blankSpaceContinue)) ['#'] = hashFirst x := by
+  unfold hashFirst lstrip
+  rw [List.take_append]
+  have hB : ∀ c ∈ t.take (Gen.blankSpaceContinue - x.length), pyIsSpace c = true := by
+    intro c hc
+    have := List.mem_of_mem_take hc
+    rcases ht with rfl | rfl
+    · simp at this
+    · simp at this; subst this; exact sp_nl
+  rw [← dropWhile_sp (hx.take _)]
+  by_cases hA : (x.take Gen.blankSpaceContinue).dropWhile pyIsSpace = []
+  · rw [dropWhile_append_of_all _ _ _ ((dropWhile_eq_nil _ _).mp hA), hA, (dropWhile_eq_nil _ _).mpr hB]
+  · rw [dropWhile_append_of_ne _ _ _ hA, startsWith_hash_append _ _ hA]
 
 /-- **L6**: a line within the limit is not cut -/
 theorem take_limit (x t : List Char) (ht : IsTerm t) (limit : Nat) (h : x.length < limit) :
